@@ -168,12 +168,22 @@ func (x *FnExec) staticCall(fr *frame, n *node, in ssa.Instruction, callee *ssa.
 		x.eng.ensureBuilt(callee)
 		ws := map[string]bool{}
 		x.writeSetFn(callee, ws, map[*ssa.Function]bool{})
+		allocBefore := x.heapGet(st, "$alloc", "(Array Ref Bool)")
 		for h := range ws {
-			if _, ok := x.q.heaps[h]; ok {
+			if srt, ok := x.q.heaps[h]; ok {
+				before := x.heapGet(st, h, srt)
 				x.heapHavocCond(st, h, reach)
+				// if the callee writes this heap only through objects it allocates itself, everything that existed
+				// before the call keeps its value
+				if strings.HasPrefix(srt, "(Array Ref ") && x.fnWritesOnlyLocal(callee, h, map[*ssa.Function]bool{}) {
+					x.q.fresh["qv_cf"]++
+					r := fmt.Sprintf("|r?cf%d|", x.q.fresh["qv_cf"])
+					after := st.heap[h]
+					x.q.assert(fmt.Sprintf("(forall ((%s Ref)) (! (=> (select %s %s) (= (select %s %s) (select %s %s))) :pattern ((select %s %s))))", r, allocBefore, r, after, r, before, r, after, r))
+				}
 			}
 		}
-		x.trusted["uncontracted repo callee (results arbitrary, write set havocked): "+funcKey(callee)] = true
+		x.trusted["uncontracted repo callee (results arbitrary; write set havocked, except that objects existing before the call are kept where the callee only writes objects it allocates): "+funcKey(callee)] = true
 		res := x.havocVal(hint, resT, reach)
 		x.assumeResultAllocated(st, reach, res)
 		return res, nil
@@ -372,6 +382,7 @@ func (x *FnExec) callGuards(fr *frame, n *node, in ssa.Instruction, c *ssa.CallC
 		}
 		o := x.addObl("guard", "call:"+g.Target, reach, goal, "guard call "+g.Target+": "+g.Src, in.Pos())
 		o.Props = g.Props
+		g.Hits++
 	}
 }
 
@@ -732,4 +743,131 @@ func smallLoopFree(f *ssa.Function) bool {
 		}
 	}
 	return n <= 120
+}
+
+// fnWritesOnlyLocal: every write of fn (transitively) to heap h goes through an object allocated inside the function
+// that performs the write.
+func (x *FnExec) fnWritesOnlyLocal(fn *ssa.Function, h string, seen map[*ssa.Function]bool) bool {
+	if seen[fn] {
+		return true
+	}
+	seen[fn] = true
+	if fn.Blocks == nil {
+		return true
+	}
+	var rooted func(v ssa.Value, depth int) bool
+	rooted = func(v ssa.Value, depth int) bool {
+		if depth > 8 {
+			return false
+		}
+		switch a := v.(type) {
+		case *ssa.Alloc, *ssa.MakeMap, *ssa.MakeSlice:
+			return true
+		case *ssa.FieldAddr:
+			return rooted(a.X, depth+1)
+		case *ssa.IndexAddr:
+			return rooted(a.X, depth+1)
+		case *ssa.Slice:
+			return rooted(a.X, depth+1)
+		case *ssa.MakeInterface:
+			return rooted(a.X, depth+1)
+		}
+		return false
+	}
+	for _, b := range fn.Blocks {
+		for _, in := range b.Instrs {
+			ws := map[string]bool{}
+			switch in := in.(type) {
+			case *ssa.Store:
+				x.addrHeapsOfPointerType(in.Addr.Type(), in.Addr, ws)
+				if ws[h] && !rooted(in.Addr, 0) {
+					return false
+				}
+			case *ssa.MapUpdate:
+				x.writeSetInstrs(fn, []ssa.Instruction{in}, ws, map[*ssa.Function]bool{})
+				if ws[h] && !rooted(in.Map, 0) {
+					return false
+				}
+			case *ssa.MakeClosure:
+				if !x.fnWritesOnlyLocal(in.Fn.(*ssa.Function), h, seen) {
+					return false
+				}
+			case ssa.CallInstruction:
+				c := in.Common()
+				x.writeSetCall(fn, in, ws, map[*ssa.Function]bool{})
+				if !ws[h] {
+					continue
+				}
+				// closures passed as arguments were already examined at their MakeClosure; what remains is the callee itself
+				if f, isF := c.Value.(*ssa.Function); isF && x.eng.libModel(f) != nil {
+					onlyClosures := true
+					ws2 := map[string]bool{}
+					if lm := x.eng.libModel(f); lm.writes != nil {
+						lm.writes(x, c, ws2)
+					}
+					for _, a := range c.Args {
+						if mc, isMC := a.(*ssa.MakeClosure); isMC {
+							cw := map[string]bool{}
+							x.writeSetFn(mc.Fn.(*ssa.Function), cw, map[*ssa.Function]bool{})
+							for k := range cw {
+								delete(ws2, k)
+							}
+						}
+					}
+					if ws2[h] {
+						onlyClosures = false
+					}
+					if onlyClosures {
+						continue
+					}
+				}
+				if c.IsInvoke() {
+					// modelled interface calls (client.Get(obj), ...): the written object is an argument
+					okAll := false
+					for _, a := range c.Args {
+						if mi, isMI := a.(*ssa.MakeInterface); isMI && rooted(mi.X, 0) {
+							okAll = true
+						}
+					}
+					if !okAll {
+						return false
+					}
+					continue
+				}
+				switch callee := c.Value.(type) {
+				case *ssa.Builtin:
+					if callee.Name() == "append" || callee.Name() == "copy" {
+						if !rootedAtLocal(c.Args[0], 0) {
+							return false
+						}
+						continue
+					}
+					if !rooted(c.Args[0], 0) {
+						return false
+					}
+				case *ssa.Function:
+					if x.eng.isRepoFunc(callee) && x.eng.specFor(callee) == nil && x.eng.libModel(callee) == nil {
+						x.eng.ensureBuilt(callee)
+						if !x.fnWritesOnlyLocal(callee, h, seen) {
+							return false
+						}
+						continue
+					}
+					// library model / contracted callee writing h: accept only when the target argument is local
+					okAll := false
+					for _, a := range c.Args {
+						if rooted(a, 0) {
+							okAll = true
+						}
+					}
+					if !okAll {
+						return false
+					}
+				default:
+					return false
+				}
+			}
+		}
+	}
+	return true
 }
